@@ -130,6 +130,20 @@ def one(rec, t, ti, name, obj, j, rng):
                 out.append("raises " + type(e).__name__)
         return out
     b1 = serialize(t, C, inst)
+    # an instance of the same class built earlier is still alive: creating, serializing or deserializing
+    # another one must not have changed it (state shared through the class)
+    held = getattr(t, "held_instances", None)
+    if held is None:
+        held = t.held_instances = {}
+    prev = held.get(obj.cls)
+    if prev is not None:
+        rec.count("earlier-instances-rechecked")
+        again = serialize(t, C, prev[0])
+        if again != prev[1] or repr(prev[0]) != prev[2]:
+            case["xml"] = t.files
+            rec.violation("changed-by-another-instance", "tree %d %s: an instance built earlier serialized to %r, after another instance of the class was built it gives %r" % (ti, name, prev[1], again), case)
+    if isinstance(b1, bytes) and len(b1) < 2000:
+        held[obj.cls] = (inst, b1, repr(inst))
     cheap = isinstance(b1, bytes) and len(b1) > 20000  # reprs of huge values would dominate the run
     if cheap:
         def snapshot(x):  # noqa: F811
